@@ -94,7 +94,19 @@ def corr_lines(lines, variant="plain"):
     mism = []
     if rc1 != 0 or rc2 != 0 or len(out1) != len(lines) or len(out2) != len(lines):
         mism.append({"cmd": "(session)", "impl": "rc=%s lines=%d %s" % (rc1, len(out1), err1[-200:]), "model": "rc=%s lines=%d %s" % (rc2, len(out2), err2[-200:]), "why": "one side did not answer every command", "info": {}})
+    unsupported = set()
     for line, a, b in zip(lines, out1, out2):
+        w = line.split()
+        # a world the driver cannot elaborate (`err unsupported`: a model outside the Lean model, or - when the library refused the world - no surface dump to read):
+        # skipped as in corr.run_corr, together with every command addressed to it, and counted
+        if w[0] == "world" and b.startswith("err unsupported"):
+            unsupported.add(w[1]); st.add("world:unsupported-by-model"); continue
+        if w[0] == "world":
+            unsupported.discard(w[1])
+        if len(w) > 1 and w[1] in unsupported:
+            if w[0] == "free":
+                unsupported.discard(w[1])
+            continue
         why = corr.compare_answers(a, b, st)
         st.add(line.split()[0])
         if why:
